@@ -6,7 +6,7 @@ import random
 import tlbkit
 import vlib
 from pytoniq_core.boc import Builder, Cell, Slice
-from pytoniq_core.tlb.vm_stack import VmCont, VmStack, VmTuple
+from pytoniq_core.tlb.vm_stack import VmCont, VmControlData, VmStack, VmTuple
 from vlib import big
 
 PROP = 'C17'
@@ -55,9 +55,31 @@ def rand_cont(rng, depth=0):
         v['cond'], v['body'], v['after'] = sub(), sub(), sub()
     elif c == 'vmc_std':
         v['code'] = rand_tree(rng)
+        v['cdata'] = rand_ctl(rng, depth)
     elif c == 'vmc_envelope':
         v['next'] = sub()
+        v['cdata'] = rand_ctl(rng, depth)
     return v
+
+
+NO_CTL = {'nargs': [], 'stack': [], 'save': [], 'cp': []}
+
+
+def rand_ctl(rng, depth):
+    """vm_ctl_data: each Maybe absent / present with boundary values (0 is a value, not absence); saved stack and c-registers"""
+    if rng.random() < 0.3:
+        return dict(NO_CTL)
+    d = {'nargs': [], 'stack': [], 'save': [], 'cp': []}
+    if rng.random() < 0.6:
+        d['nargs'] = [big(rng.choice([0, 1, 2, 8191, rng.randint(0, 8191)]))]
+    if rng.random() < 0.6:
+        d['stack'] = [[rand_value(rng, 3) if depth < 2 else {'k': 'int', 'v': big(rng.choice(INTS))} for _ in range(rng.choice([0, 0, 1, 2, 3]))]]
+    if rng.random() < 0.5:
+        ks = sorted(rng.sample(range(16), rng.choice([1, 1, 2, 3, 16])))
+        d['save'] = [{'k': k, 'v': (rand_value(rng, 3) if depth < 2 and rng.random() < 0.5 else {'k': 'int', 'v': big(rng.choice(INTS))})} for k in ks]
+    if rng.random() < 0.6:
+        d['cp'] = [big(rng.choice([0, -1, 1, 32767, -32768]))]
+    return d
 
 
 def rand_value(rng, depth=0):
@@ -75,12 +97,31 @@ def rand_value(rng, depth=0):
     return {'k': 'tuple', 'v': [rand_value(rng, depth + 1) for _ in range(n)]}
 
 
-class Ctl:
-    """empty vm_ctl_data for the library's VmControlData.serialize"""
-    nargs = None
-    stack = None
-    save = None
-    cp = None
+def lib_ctl(d):
+    return VmControlData('vm_ctl_data', nargs=vlib.unbig(d['nargs'][0]) if d['nargs'] else None,
+                         stack=[to_lib(x) for x in d['stack'][0]] if d['stack'] else None,
+                         save={e['k']: to_lib(e['v']) for e in d['save']} if d['save'] else None,
+                         cp=vlib.unbig(d['cp'][0]) if d['cp'] else None)
+
+
+def of_ctl(cd, seen):
+    if cd is None:
+        return {'missing': 1}
+    out = {}
+    for f in ('nargs', 'cp'):
+        x = getattr(cd, f, None)
+        out[f] = [] if x is None else ([big(x)] if isinstance(x, int) and not isinstance(x, bool) else [{'unexpected': type(x).__name__}])
+    st = getattr(cd, 'stack', None)
+    out['stack'] = [] if st is None else ([[of_lib(y, seen) for y in st]] if isinstance(st, list) else [{'unexpected': type(st).__name__}])
+    sv = getattr(cd, 'save', None)
+    sv = getattr(sv, 'map', sv) if not isinstance(sv, dict) else sv
+    if not sv:
+        out['save'] = []
+    elif isinstance(sv, dict):
+        out['save'] = [{'k': int(k) if not isinstance(k, str) else int(k, 2), 'v': of_lib(sv[k], seen)} for k in sorted(sv, key=lambda z: int(z) if not isinstance(z, str) else int(z, 2))]
+    else:
+        out['save'] = [{'unexpected': type(sv).__name__}]
+    return out
 
 
 def to_lib(v):
@@ -92,11 +133,14 @@ def to_lib(v):
     if k == 'cell':
         return tlbkit.tree_to_cell(v['t'])
     if k == 'slice':
-        # a partly consumed slice whose REMAINING data is t: prepend something and consume it
-        c = tlbkit.tree_to_cell({'b': [1, 1, 0] + v['t']['b'], 'r': v['t']['r']}) if len(v['t']['b']) <= 1020 else tlbkit.tree_to_cell(v['t'])
+        # a partly consumed slice whose REMAINING data is t: prepend bits and references and consume them
+        nb = 3 if len(v['t']['b']) <= 1020 else 0
+        nr = min(len(v['t']['b']) % 3, 4 - len(v['t']['r']))
+        c = tlbkit.tree_to_cell({'b': [1, 1, 0][:nb] + v['t']['b'], 'r': [{'b': [0, 1, 1, 1], 'r': []}] * nr + v['t']['r']})
         s = c.begin_parse()
-        if len(v['t']['b']) <= 1020:
-            s.load_bits(3)
+        s.load_bits(nb)
+        for _ in range(nr):
+            s.load_ref()
         return s
     if k == 'builder':
         b = Builder().store_bits(tlbkit.bitarray(v['t']['b']))
@@ -108,7 +152,7 @@ def to_lib(v):
     c = v['c']
     kw = {}
     for f, x in v.items():
-        if f in ('k', 'c'):
+        if f in ('k', 'c', 'cdata'):
             continue
         if f in ('exit_code', 'value', 'count'):
             kw[f] = vlib.unbig(x)
@@ -117,11 +161,19 @@ def to_lib(v):
         else:
             kw[f] = to_lib(x)
     if c in ('vmc_std', 'vmc_envelope'):
-        kw['cdata'] = Ctl()
+        kw['cdata'] = lib_ctl(v.get('cdata', NO_CTL))
     return VmCont(c, **kw)
 
 
-def of_lib(x):
+BUDGET = [0]
+
+
+def of_lib(x, seen=()):
+    BUDGET[0] -= 1
+    if id(x) in seen or len(seen) > 300 or BUDGET[0] < 0:
+        return {'k': 'unexpected_cycle_or_blowup'}          # an object that contains itself (or unfolds without end) is not a value
+    if isinstance(x, (VmTuple, VmCont)):
+        seen = seen + (id(x),)
     if x is None:
         return {'k': 'null'}
     if isinstance(x, bool):
@@ -135,7 +187,7 @@ def of_lib(x):
     if isinstance(x, Builder):
         return {'k': 'builder', 't': tlbkit.cell_tree(x)}
     if isinstance(x, VmTuple):
-        return {'k': 'tuple', 'v': [of_lib(y) for y in x.list]}
+        return {'k': 'tuple', 'v': [of_lib(y, seen) for y in x.list]}
     if isinstance(x, VmCont):
         v = {'k': 'cont', 'c': x.type_}
         for f in ('exit_code', 'value', 'count'):
@@ -145,7 +197,9 @@ def of_lib(x):
             v['code'] = tlbkit.cell_tree(x.code)
         for f in ('next', 'body', 'after', 'cond'):
             if hasattr(x, f):
-                v[f] = of_lib(getattr(x, f))
+                v[f] = of_lib(getattr(x, f), seen)
+        if x.type_ in ('vmc_std', 'vmc_envelope'):
+            v['cdata'] = of_ctl(getattr(x, 'cdata', None), seen)
         return v
     return {'k': 'unexpected_' + type(x).__name__}
 
@@ -161,13 +215,39 @@ def generate(tier, seed, ctx):
     for _ in range(250 if q else 6000):
         stacks.append([rand_value(rng) for _ in range(rng.randint(0, 6))])
     stacks.append([{'k': 'int', 'v': big(j)} for j in range(100)])     # JSON nesting limit of the TLC reader: 255 levels
+    # every present/absent combination of the four optional parts of vm_ctl_data, zero values included
+    code = {'b': [1, 0, 1, 1, 0, 0, 0, 1], 'r': [{'b': [1], 'r': []}]}
+    quit0 = {'k': 'cont', 'c': 'vmc_quit', 'exit_code': big(0)}
+    for m in range(16):
+        cd = {'nargs': [big(0 if m & 16 else (m * 37) % 8192)] if m & 1 else [], 'cp': [big(0 if m % 3 == 0 else -1)] if m & 2 else [],
+              'stack': [[{'k': 'int', 'v': big(7)}, {'k': 'null'}][:m % 3]] if m & 4 else [],
+              'save': [{'k': k, 'v': {'k': 'int', 'v': big(k)}} for k in ((0,), (15,), (0, 1), (3, 7, 12))[m % 4]] if m & 8 else []}
+        stacks.append([{'k': 'cont', 'c': 'vmc_std', 'code': code, 'cdata': cd}])
+        stacks.append([{'k': 'int', 'v': big(1)}, {'k': 'cont', 'c': 'vmc_envelope', 'next': quit0, 'cdata': cd}, {'k': 'null'}])
+    stacks.append([{'k': 'cont', 'c': 'vmc_std', 'code': code, 'cdata': {'nargs': [big(0)], 'stack': [[]], 'save': [], 'cp': [big(0)]}}])
+    # the same one-element tuple, and the same empty tuple, several times in one process (results must not accumulate)
+    for j in range(3):
+        stacks.append([{'k': 'tuple', 'v': [{'k': 'int', 'v': big(41 + j)}]}, {'k': 'tuple', 'v': []}])
+    # non-canonical VmCellSlice windows (parse direction): the slice is the window [st_bits, end_bits) x [st_ref, end_ref)
+    wins = []
+    for _ in range(20 if q else 300):
+        t = {'b': [rng.getrandbits(1) for _ in range(rng.choice([0, 1, 9, 64, 1023]))], 'r': [{'b': [1] * (j + 1), 'r': []} for j in range(rng.randint(0, 4))]}
+        eb = rng.randint(0, len(t['b']))
+        er = rng.randint(0, len(t['r']))
+        wins.append([{'k': 'slicewin', 't': t, 'sb': rng.randint(0, eb), 'eb': eb, 'sr': rng.randint(0, er), 'er': er}] + ([rand_value(rng)] if rng.random() < 0.3 else []))
+    stacks += wins
     jobs = [{'id': i + 1, 'type': 'VmStackL', 'val': s} for i, s in enumerate(stacks)]
     encs = vlib.tlc_map('TlbEncode.tla', jobs, os.path.join(ctx['work'], 'enc'))
     out = []
     for j in jobs:
         val = j['val']
+        BUDGET[0] = 200000                            # nodes the observer may visit per stack (values here have < 2000)
         rec = {'op': 'vm_ser', 'val': val}
+        if any(v['k'] == 'slicewin' for v in val):
+            rec = None
         try:
+            if rec is None:
+                raise StopIteration
             data = [to_lib(v) for v in val]
             c1 = VmStack.serialize(data)
             after = [of_lib(x) for x in data]
@@ -175,13 +255,19 @@ def generate(tier, seed, ctx):
             rec['out'] = {'tree': tlbkit.cell_tree(c1), 'tree2': tlbkit.cell_tree(c2), 'after': after}
         except RecursionError:
             raise
+        except StopIteration:
+            pass
         except Exception as e:
             rec['out'] = {'err': type(e).__name__}
-        out.append(rec)
+        if rec is not None:
+            out.append(rec)
         rec = {'op': 'vm_parse', 'val': val}
         try:
-            back = VmStack.deserialize(tlbkit.tree_to_cell(encs[j['id']]['encs'][0]['tree']).begin_parse())
+            enc_cell = tlbkit.tree_to_cell(encs[j['id']]['encs'][0]['tree'])
+            back = VmStack.deserialize(enc_cell.begin_parse())
             rec['back'] = [of_lib(x) for x in back]
+            rec['back2'] = [of_lib(x) for x in VmStack.deserialize(enc_cell.begin_parse())]      # parsing again gives the same values
+            rec['back_again'] = [of_lib(x) for x in back] == rec['back']                          # and does not disturb the first result
         except RecursionError:
             raise
         except Exception as e:
